@@ -4,7 +4,8 @@
             Model/C11_Map.v  (StandardGeneticMap / ExtendedGeneticMap / interp_xoprob, exact rationals),
             Model/C11_Check.v (the comparisons evaluated by the correspondence shards). *)
 From Coq Require Import Reals QArith Qreals Sorting.Sorted Sorting.Permutation.
-From PV Require Import Lib.Common Model.C11_Map Model.C11_MapFn Model.C11_Check Proofs.C11_Map Proofs.C11_MapFn Proofs.C11_Xo.
+From Coq Require Import PrimFloat.
+From PV Require Import Lib.Common Model.C11_Map Model.C11_MapFn Model.C11_Check Proofs.C11_Map Proofs.C11_MapFn Proofs.C11_Xo Proofs.C11_Float.
 
 (** * map functions *)
 (** both map functions send 0 to 0, [0,inf) into [0,1/2), are strictly increasing, tend to 1/2 at infinity, are undone
@@ -97,6 +98,16 @@ Theorem C11_interp_own_markers : forall rows, wf_map rows ->
 Proof. exact interp_own_markers. Qed.
 Print Assumptions C11_interp_own_markers.
 
+(** the same in binary64, bit for bit: scipy's barycentric evaluation (PrimFloat model, compared bit-exactly with the
+    implementation on every generated case) returns the stored position at every knot, for all finite positions and
+    all knot distances up to 2^53 (Flocq) *)
+Theorem C11_interp_own_markers_binary64 : forall (pts : list (Z * PrimFloat.float)) i, (2 <= length pts)%nat -> incr (map fst pts) ->
+  (forall a b, (a < b < length pts)%nat -> (nth b (map fst pts) 0 - nth a (map fst pts) 0 <= 2^53)%Z) ->
+  Forall (fun p => finite64 (snd p)) pts -> (i < length pts)%nat ->
+  PrimFloat.eqb (interp1_f pts (fst (nth i pts (0%Z, 0%float)))) (snd (nth i pts (0%Z, 0%float))) = true.
+Proof. exact interp1_f_at_knot. Qed.
+Print Assumptions C11_interp_own_markers_binary64.
+
 (** between two consecutive markers of a chromosome the interpolated position lies on their chord (linear) *)
 Theorem C11_interp_linear_between : forall rows c i x, wf_map rows -> has_chr rows c = true ->
   let k := knots rows c in (S i < length k)%nat -> (fst (nth i k (0%Z, 0%Q)) <= x <= fst (nth (S i) k (0%Z, 0%Q)))%Z ->
@@ -177,9 +188,11 @@ Print Assumptions C11_interp_gmap_meta_partial.
 
 (** non-vacuity: a concrete two-chromosome, six-marker map (supplied out of order) is well-formed and congruent *)
 Example C11_hyps_satisfiable : wf_map (gm_rows wit_rows) /\ is_congruent (gm_rows wit_rows) = true /\ distinct_pos wit_rows
-  /\ has_chr (gm_rows wit_rows) 1 = true /\ incr (map fst (knots (gm_rows wit_rows) 1)).
+  /\ has_chr (gm_rows wit_rows) 1 = true /\ incr (map fst (knots (gm_rows wit_rows) 1))
+  /\ Forall (fun p : Z * PrimFloat.float => finite64 (snd p)) [(5%Z, 0%float); (9%Z, 0.25%float); (20%Z, 0.5%float)].
 Proof.
   destruct wit_wf as [W C]. split; [exact W|]. split; [exact C|]. split.
   - unfold distinct_pos, wit_rows. cbn. repeat constructor; cbn; intuition discriminate.
-  - split; [reflexivity|]. destruct W as (S & ND & _). now apply knots_incr.
+  - split; [reflexivity|]. split; [destruct W as (S & ND & _); now apply knots_incr|].
+    repeat constructor; reflexivity.
 Qed.
